@@ -1,4 +1,4 @@
-#!/bin/sh
+#!/bin/bash
 # runs every claimed check against every stored behaviour-preserving refactoring (8 in parallel)
 here=$(cd "$(dirname "$0")/.." && pwd); cd "$here"
 for d in refactorings/*.diff; do
